@@ -24,7 +24,7 @@ func addRegexRule(nr *nativeRules, seen map[string]bool, text string) {
 	if err != nil || !r.IsRegexRule() {
 		return
 	}
-	pat := rules.VerifCompiledPattern(r)
+	pat := safeCompiledPattern(r)
 	if pat == "" {
 		return
 	}
